@@ -134,10 +134,12 @@ def handleC03 (op : String) (args : Array Json) : Option Json := do
     -- ["c03.rt", kind, fv] → [representable, "store-err" | result]
     let k ← parseKind (arg args 1)
     let fv ← parseOptVal (arg args 2)
-    let r := match roundTrip k fv with
-      | .error .outOfRange => Json.str "store-out-of-range"
-      | .error .notStorable => Json.str "store-not-storable"
-      | .ok r => resJ r
+    let r := match store (valueOf k fv).1 with
+      | .error _ => Json.str "create-error"
+      | .ok d => match load k d with
+        | .error .unmodelled => Json.arr #[Json.str "unmodelled"]
+        | .error _ => Json.str "load-error"
+        | .ok s => resJ (setField k k.zero s)
     some (Json.arr #[Json.bool (representable k fv), r])
   | "c03.backfill" =>
     -- ["c03.backfill", reversed, hasAutoPk, inc, keys, rowsAffected, lastId|null]
@@ -153,6 +155,15 @@ def handleC03 (op : String) (args : Array Json) : Option Json := do
     let present ← (← jArr? (arg args 2)).toList.mapM jBool?
     let id ← jInt? (arg args 3)
     some (Json.arr ((backfillMaps rev present id).map optIntJ).toArray)
+  | "c03.createmaps" =>
+    -- ["c03.createmaps", returning, ptrDest, max, n] → null | [[key|null…], len]
+    let ret ← jBool? (arg args 1)
+    let p ← jBool? (arg args 2)
+    let m ← jInt? (arg args 3)
+    let n ← jNat? (arg args 4)
+    match createMaps ret p m n with
+    | none => some (Json.str "error")
+    | some (ks, len) => some (Json.arr #[Json.arr (ks.map optIntJ).toArray, natJ len])
   | "c03.batches" =>
     let n ← jNat? (arg args 1)
     let b ← jNat? (arg args 2)
